@@ -136,15 +136,17 @@ def spec_attrs(mentions, syntax, options, strict_implied=False):
         # the winning *mention* decides, also when it carries no value ("the last value wins" + "a name without value
         # gets an empty value": `[n=v][n]` is n=""), cf. notes
         value_cands = [(winner['value'], winner['vt'])]
-        is_listed = name.lower() in listed
-        b_all = is_listed or all(m.get('boolean') for m in ms)
-        b_any = is_listed or any(m.get('boolean') for m in ms)
+        # "listed in output.booleanAttributes": the statement does not say whether a name that differs from a listed one
+        # in letter case only counts as listed -> both readings (only relevant for mixed-case names, clause attr-name-case)
+        listed_readings = {name in listed, name.lower() in listed}
+        b_all = {is_listed or all(m.get('boolean') for m in ms) for is_listed in listed_readings}
+        b_any = {is_listed or any(m.get('boolean') for m in ms) for is_listed in listed_readings}
         i_all = all(m.get('implied') for m in ms)
         i_any = any(m.get('implied') for m in ms)
         e_any = any(m['vt'] == 'expr' for m in ms)
         acc = set()
         for value, vt in value_cands:
-            for boolean in {b_all, b_any}:              # silent: which mention's flag survives a merge
+            for boolean in b_all | b_any:               # silent: which mention's flag survives a merge
                 for implied in {i_all, i_any}:
                     for is_expr in {vt == 'expr', e_any}:
                         for oname in names:
@@ -182,28 +184,47 @@ def _eq_name(a, b, case):
     return a.lower() == b.lower() if case else a == b
 
 
+def _form_of(attr, quote):
+    aname, kind, value = attr
+    if kind == 'bare':
+        return ('bare',)
+    if kind == 'expr':
+        return ('e', value)
+    if kind == quote:
+        return ('q', value)
+    return None
+
+
+def _form_ok(form, acc, outname, case):
+    if form in acc:
+        return True
+    if case and form[0] in 'qe':
+        return any(f != DROPPED and f[0] == form[0] and f[1].lower() == form[1].lower() and _eq_name(f[1], outname, case)
+                   for f in acc)                        # boolean expansion follows the cased name
+    return False
+
+
 def compare_attrs(actual, expected, options):
     """actual: [(name, kind, value)] from the tag reader. Returns None or a description"""
     quote = 'sq' if options.get('output.attributeQuotes') == 'single' else 'dq'
     case = options.get('output.attributeCase') or ''
+    what = _compare_in_order(actual, expected, quote, case)
+    if what and case and _fits(actual, expected, 0, 0, quote, case):
+        # under output.attributeCase two different attributes print under one name (`[!title][Title=a]`, `#j[Id !id]`): an
+        # attribute that may be dropped must not claim the tag of its namesake - any consistent assignment is accepted
+        return None
+    return what
+
+
+def _compare_in_order(actual, expected, quote, case):
     j = 0
     for outname, acc in expected:
         if j < len(actual) and _eq_name(actual[j][0], outname, case):
-            aname, kind, value = actual[j]
-            if kind == 'bare':
-                form = ('bare',)
-            elif kind == 'expr':
-                form = ('e', value)
-            elif kind == quote:
-                form = ('q', value)
-            else:
-                return 'attribute %r is quoted with the wrong quote character (%s)' % (aname, kind)
-            ok = form in acc
-            if not ok and case and form[0] in 'qe':
-                ok = any(f != DROPPED and f[0] == form[0] and f[1].lower() == value.lower() and _eq_name(f[1], outname, case)
-                         for f in acc)                  # boolean expansion follows the cased name
-            if not ok:
-                return 'attribute %r comes out as %r, acceptable per statement: %s' % (aname, form, sorted(map(repr, acc)))
+            form = _form_of(actual[j], quote)
+            if form is None:
+                return 'attribute %r is quoted with the wrong quote character (%s)' % (actual[j][0], actual[j][1])
+            if not _form_ok(form, acc, outname, case):
+                return 'attribute %r comes out as %r, acceptable per statement: %s' % (actual[j][0], form, sorted(map(repr, acc)))
             j += 1
         elif DROPPED in acc:
             continue
@@ -212,6 +233,19 @@ def compare_attrs(actual, expected, options):
     if j != len(actual):
         return 'unexpected extra attribute(s) %r' % (actual[j:],)
     return None
+
+
+def _fits(actual, expected, i, j, quote, case):
+    """is there an order-preserving assignment of the printed attributes actual[j:] to expected[i:] in which every expected
+    attribute is either printed in an acceptable form or (if it may be dropped) absent?"""
+    if i == len(expected):
+        return j == len(actual)
+    outname, acc = expected[i]
+    if j < len(actual) and _eq_name(actual[j][0], outname, case):
+        form = _form_of(actual[j], quote)
+        if form is not None and _form_ok(form, acc, outname, case) and _fits(actual, expected, i + 1, j + 1, quote, case):
+            return True
+    return DROPPED in acc and _fits(actual, expected, i + 1, j, quote, case)
 
 
 def _mentions_of(kinds):
@@ -596,6 +630,203 @@ def snippet_cases(rng, n_random, option_sets):
 
 
 # ---------------------------------------------------------------------------------------------
+# attribute names that differ in letter case only (`viewBox` / `viewbox`, `Class` / `class`, `ID` / `id`): the statement
+# merges *repeated* attributes, i.e. mentions of the same name; a differently spelled name is another attribute
+
+CASE_FAMILIES = [
+    ['title', 'Title', 'TITLE'],
+    ['viewBox', 'viewbox', 'VIEWBOX'],
+    ['onClick', 'onclick'],
+    ['class', 'Class', 'CLASS'],
+    ['id', 'ID', 'Id'],
+    ['key', 'Key'],
+    ['for', 'For', 'FOR'],
+    ['dataX', 'datax', 'DataX'],
+    ['xlink:href', 'xlink:Href'],
+    ['data-a', 'data-A'],
+    ['href', 'Href', 'HREF'],          # also predefined by the built-in snippets a / link
+    ['src', 'SRC'],                    # ... img / iframe / video
+]
+CASE_FORMS = ['raw', 'quoted', 'none', 'bool', 'implied', 'expr']
+CASE_SHORTHANDS = ['.c', '.d', '#i', '#j']
+CASE_NEUTRAL = ['[m=1]', '[n=v]']
+CASE_KINDS = {}           # spelling -> [kinds]
+
+
+def _case_kind(spelling, idx, form):
+    """kind text + mention of one way of writing the attribute `spelling`; every (spelling, form) has a value of its own,
+    so the reader can tell whose value was printed"""
+    if form == 'raw':
+        return '[%s=r%d]' % (spelling, idx), {'name': spelling, 'value': 'r%d' % idx, 'vt': 'raw'}
+    if form == 'quoted':
+        return '[%s="q %d"]' % (spelling, idx), {'name': spelling, 'value': 'q %d' % idx, 'vt': 'quoted'}
+    if form == 'none':
+        return '[%s]' % spelling, {'name': spelling, 'value': None, 'vt': 'raw'}
+    if form == 'bool':
+        return '[%s.]' % spelling, {'name': spelling, 'value': None, 'vt': 'raw', 'boolean': True}
+    if form == 'implied':
+        return '[!%s]' % spelling, {'name': spelling, 'value': None, 'vt': 'raw', 'implied': True}
+    return '[%s={e%d}]' % (spelling, idx), {'name': spelling, 'value': 'e%d' % idx, 'vt': 'expr'}
+
+
+def _register_case_kinds():
+    for fam in CASE_FAMILIES:
+        for idx, sp in enumerate(fam):
+            # a valueless / modifier-only / expression mention of `class` itself is outside the statement ("not checked on
+            # purpose" in the notes); `Class` and `CLASS` are ordinary attributes and get every form
+            forms = ['raw', 'quoted'] if sp == 'class' else CASE_FORMS
+            CASE_KINDS[sp] = []
+            for f in forms:
+                text, mention = _case_kind(sp, idx, f)
+                MENTIONS.setdefault(text, mention)
+                CASE_KINDS[sp].append(text)
+
+
+_register_case_kinds()
+
+_CASE_TABLE = {'Title': 'x-title', 'viewbox': 'vb', 'ID': 'key2', 'Class': 'klass', 'onclick': 'on-click', 'FOR': 'html-for',
+               'data-A': 'data-b', 'Href': 'to'}
+CASE_OPTION_ROWS = [
+    {},
+    {'output.attributeQuotes': 'single'},
+    {'output.reverseAttributes': True},
+    {'output.compactBoolean': True},
+    {'output.attributeCase': 'upper'},
+    {'output.attributeCase': 'lower'},
+    {'output.selfClosingStyle': 'xml', 'output.compactBoolean': True, 'output.reverseAttributes': True},
+    {'output.booleanAttributes': ['title', 'key', 'viewbox', 'datax']},
+    {'markup.attributes': _CASE_TABLE},
+    {'markup.attributes': _CASE_TABLE, 'output.reverseAttributes': True, 'output.attributeQuotes': 'single'},
+    {'output.booleanAttributes': ['Title', 'id'], 'output.compactBoolean': True, 'output.selfClosingStyle': 'xhtml'},
+]
+
+
+def _render_segments(segments):
+    """segments: [[kind, ...]]; a segment of several bracket kinds is written as one attribute set `[a=1 b c=2]`"""
+    parts = []
+    for seg in segments:
+        if len(seg) == 1:
+            parts.append(seg[0])
+        else:
+            assert all(k.startswith('[') and k.endswith(']') for k in seg), seg
+            parts.append('[' + ' '.join(k[1:-1] for k in seg) + ']')
+    return ''.join(parts)
+
+
+def check_case_names(elems, syntax, options, selfclose):
+    """elems: [[tag name ('' = implied), segments, count]] rendered as e0>e1+e2...; the mentions use attribute names that
+    differ from each other in letter case only, next to exact repeats, shorthands and unrelated attributes.  Every tag
+    must carry spec_attrs(its mentions): mentions are grouped by the name *as written*"""
+    options = effective(syntax, options)
+    parts = []
+    for name, segments, count in elems:
+        parts.append(name + _render_segments(segments) + ('*%d' % count if count > 1 else ''))
+    abbr = parts[0] + ('>' + '+'.join(parts[1:]) if len(parts) > 1 else '')
+    if selfclose and len(parts) == 1 and elems[0][2] == 1:
+        abbr += '/'
+    out = _expand(abbr, syntax, options)
+    try:
+        toks = [t for t in parse_markup(out) if t['type'] == 'open']
+    except MarkupError as e:
+        return '%s -> %r is not well-formed markup: %s' % (abbr, out, e)
+    expected = []
+    for _ in range(elems[0][2]):
+        expected.append((elems[0][0], elems[0][1]))
+        for name, segments, count in elems[1:]:
+            for _ in range(count):
+                expected.append((name, segments))
+    if len(toks) != len(expected):
+        return '%s (%s) -> %r: %d elements expected, %d found' % (abbr, syntax, out, len(expected), len(toks))
+    for t, (name, segments) in zip(toks, expected):
+        if name and t['name'] != name:
+            return '%s (%s) -> %r: element <%s> where <%s> was expected' % (abbr, syntax, out, t['name'], name)
+        kinds = [k for seg in segments for k in seg]
+        what = compare_attrs(t['attrs'], spec_attrs(_mentions_of(kinds), syntax, options, True), options)
+        if what:
+            return '%s (%s, %r) -> %r: element <%s>: %s' % (abbr, syntax, options, out, t['name'], what)
+    return None
+
+
+def case_pair_cases(rows, nsyn=4):
+    """exhaustive core: two mentions a, b of one family (every ordered pair of spellings incl. the same spelling = a real
+    repeat, every pair of forms) in six arrangements; each under `nsyn` syntaxes (rotating window), option row rotating"""
+    k = 0
+    w = 0
+    for fam in CASE_FAMILIES:
+        for s1 in fam:
+            for s2 in fam:
+                for a in CASE_KINDS[s1]:
+                    for b in CASE_KINDS[s2]:
+                        arrangements = [
+                            [[a], [b]],                        # p[a][b]
+                            [[a, b]],                          # p[a b]
+                            [[a, '[m=1]', b]],                 # p[a m=1 b]
+                            [['.c'], [a], ['#i'], [b]],        # p.c[a]#i[b]
+                            [[a], [b], ['.d'], [a]],           # p[a][b].d[a]: a repeat across another spelling
+                            [['#j'], [b, a], ['.c'], ['.d']],
+                        ]
+                        for segs in arrangements:
+                            w += 1
+                            for d in range(nsyn):
+                                syn = SYNTAXES[((w + w // len(arrangements)) * nsyn + d) % len(SYNTAXES)]
+                                k += 1
+                                yield ([['p', segs, 1]], syn, rows[k % len(rows)], k % 3 == 0)
+
+
+def _rand_segments(rng, pool, nmax):
+    kinds = [rng.choice(pool) for _ in range(rng.randint(0, nmax))]
+    segs = []
+    for kd in kinds:
+        if segs and kd.startswith('[') and segs[-1][0].startswith('[') and rng.random() < 0.5:
+            segs[-1].append(kd)
+        else:
+            segs.append([kd])
+    return segs
+
+
+def case_random_cases(rng, n, rows):
+    names = ['div', 'p', 'svg', 'item', 'x-y', '']
+    for _ in range(n):
+        elems = []
+        for _e in range(rng.randint(1, 3)):
+            pool = list(CASE_SHORTHANDS) + list(CASE_NEUTRAL)
+            for fam in rng.sample(CASE_FAMILIES, 2):
+                for sp in fam:
+                    pool.extend(CASE_KINDS[sp])
+            segs = _rand_segments(rng, pool, 5)
+            name = rng.choice(names)
+            if not name and not segs:
+                name = 'p'
+            elems.append([name, segs, rng.choice([1, 1, 1, 2])])
+        yield (elems, rng.choice(SYNTAXES), rng.choice(rows), rng.random() < 0.3)
+
+
+def case_user_snippet_cases(rng, n, rows):
+    """user snippet `alias: tag + D`, used as `alias + U`: D and U from one family (+ shorthands), so the abbreviation
+    writes another spelling of a name the definition already has"""
+    for _ in range(n):
+        fam = rng.choice(CASE_FAMILIES)
+        pool = [kd for sp in fam for kd in CASE_KINDS[sp]]
+        d = [rng.choice(pool + ['.c', '#i']) for _ in range(rng.randint(1, 3))]
+        us = [[rng.choice(pool + ['.d', '#j', '[m=1]']) for _ in range(rng.randint(0, 3))] for _ in range(rng.randint(1, 2))]
+        yield (rng.choice(['sn', 'x-t', 'my:el']), rng.choice(['test', 'p', 'svg']), d, us, rng.choice(SYNTAXES), rng.choice(rows))
+
+
+def case_builtin_snippet_cases(rows):
+    """built-in snippets with a plain definition (`a[href]`, `img[src alt]`, `link[rel=stylesheet href]`, `iframe[src
+    frameborder=0]`, `video[src]`) + one or two mentions spelled like / unlike the predefined name"""
+    k = 0
+    for alias, fams in [('a', ['href']), ('link', ['href']), ('img', ['src']), ('iframe', ['src']), ('video', ['src'])]:
+        pool = [kd for fam in CASE_FAMILIES if fam[0] in fams for sp in fam for kd in CASE_KINDS[sp]]
+        seqs = [[a] for a in pool] + [[a, b] for a in pool for b in pool] + [[a, '.x', b] for a in pool[::2] for b in pool[1::2]]
+        for ks in seqs:
+            k += 1
+            syn = SYNTAXES[k % len(SYNTAXES)]
+            o = rows[(k // len(SYNTAXES)) % len(rows)]
+            yield ([[alias, ks, 1]], 'sib', syn, o, 'none', None)
+
+
+# ---------------------------------------------------------------------------------------------
 
 SYNTAXES = ['html', 'xml', 'jsx', 'vue']
 
@@ -773,4 +1004,34 @@ def run(tier, seed):
     run_parallel_sorted(c6, 'bounded.c03', 'check_user_snippet', user_snippet_cases(rng5, cover, n6), chunk=500)
     c6.violations = (first[:25] + c6.violations[:25]) if first and c6.violations else (first + c6.violations)
     c6.done()
-    return [c1, c2, c3, c4, c5, c6]
+
+    rng7 = random.Random(seed * 7919 + 7)          # own stream again
+    n7, n7s = (4000, 2000) if quick else (40000, 20000)
+    c7 = Clause('attr-name-case', 'B',
+                'mentions whose attribute names differ in letter case only (families %r; forms name=value, name="quoted value", '
+                'name, name., !name, name={expr}) next to exact repeats, shorthands %r and unrelated attributes %r: (a) two mentions '
+                'a, b of one family - every ordered pair of spellings incl. the same one, every pair of forms - arranged as p[a][b], '
+                'p[a b], p[a m=1 b], p.c[a]#i[b], p[a][b].d[a], p#j[b a].c.d; (b) seeded random abbreviations of 1-3 elements with 0-5 '
+                'mentions from two families + shorthands, randomly grouped into attribute sets; (c) user snippets `alias: tag + D` '
+                'used as `alias + U` with D, U from one family; (d) built-in snippets a / link / img / iframe / video + 1-3 mentions '
+                'spelled like / unlike the predefined attribute'
+                % (CASE_FAMILIES, CASE_SHORTHANDS, CASE_NEUTRAL),
+                '(a) exhaustive, each arrangement under %s of the syntaxes %r, option row rotating over the %d rows %r; (b) %d cases; (c) %d cases; '
+                '(d) all sequences of <= 2 such mentions (+ a sample with `.x` in between), syntax and row rotating'
+                % ('two (rotating)' if quick else 'all', SYNTAXES, len(CASE_OPTION_ROWS), CASE_OPTION_ROWS, n7, n7s),
+                'a case is (elements with their attribute sets, syntax, option row, self-closing) or the case of check_user_snippet / '
+                'check_snippet_elements; expectation spec_attrs, which groups mentions by the name exactly as written: names that '
+                'differ in letter case are different attributes (each printed, own value, own position, own `markup.attributes` '
+                'entry), only identically spelled mentions are merged', exhaustive=False)
+    parts = []
+    for fname, cases, chunk in [('check_case_names', itertools.chain(case_pair_cases(CASE_OPTION_ROWS, 2 if quick else 4),
+                                                                     case_random_cases(rng7, n7, CASE_OPTION_ROWS)), 2000),
+                                ('check_user_snippet', case_user_snippet_cases(rng7, n7s, CASE_OPTION_ROWS), 500),
+                                ('check_snippet_elements', case_builtin_snippet_cases(CASE_OPTION_ROWS), 500)]:
+        c7.violations = []
+        run_parallel_sorted(c7, 'bounded.c03', fname, cases, chunk=chunk)
+        parts.append(list(c7.violations))
+    nonempty = [p for p in parts if p]
+    c7.violations = [v for p in parts for v in p[:50 // max(len(nonempty), 1)]]
+    c7.done()
+    return [c1, c2, c3, c4, c5, c6, c7]
